@@ -1,0 +1,24 @@
+//go:build verif
+
+package packet
+
+// Contracts for govc (/verif). Comments only.
+
+// ---- C45: the packet parsers never panic on their input ----
+// EncryptedKey.Decrypt: whatever bytes the private-key operation returns (an attacker who knows the public
+// key chooses them freely, including fewer than three), the session key is taken apart without an index
+// out of range. The key object handed in must have the Go type its algorithm field announces (that is how
+// PrivateKey.parse builds it); the decryption primitives are unknown callees with arbitrary results.
+//@ func (*EncryptedKey).Decrypt
+//@ props C45
+//@ nonnil e priv
+//@ requires implies(priv.PubKeyAlgo == 1 || priv.PubKeyAlgo == 2, typeis(priv.PrivateKey, "*crypto/rsa.PrivateKey"))
+//@ requires implies(priv.PubKeyAlgo == 16, typeis(priv.PrivateKey, "*golang.org/x/crypto/openpgp/elgamal.PrivateKey"))
+//@ modifies heap
+//@ canary ensures result != nil
+
+//@ func padToKeySize
+//@ trusted
+//@ note left-pads b with zeros to the size of the modulus; the key object (not input) is assumed well formed (non-nil modulus)
+//@ modifies heap
+//@ ensures len(result) >= len(b)
